@@ -1,3 +1,6 @@
+-- one transaction: executescript() would otherwise commit each statement on
+-- its own, and an upgrade interrupted half-way could not be retried
+BEGIN;
 CREATE TABLE `client_versions`
 (
  `app_id` VARCHAR,
@@ -13,3 +16,4 @@ CREATE INDEX `client_versions_appid_time_idx` on `client_versions` (`app_id`, `c
 
 DELETE FROM `version`;
 INSERT INTO `version` (`version`) VALUES (2);
+COMMIT;
